@@ -41,7 +41,7 @@ FLT_MAX = float(np.finfo(np.float32).max)
 REL = 2.0 ** -22          # analytic: <= 3 roundings of 2^-24 each in bucket and product
 
 
-def allowed_np(k, m, N):
+def allowed_np(k, m, N, exact=True, window=True):
   """numpy transcription of Quant!Allowed: returns (lo, amb) with allowed = {lo, lo+amb}.
 
   k: int64 array of mantissas, m: int64 (broadcastable) column max-abs, 0 <= N*|k| < 2^62.
@@ -63,7 +63,9 @@ def allowed_np(k, m, N):
   amb = np.where(m == 0, 0, both.astype(np.int64))
   # exact bucket (N divides m): exactly round-half-even, no window
   rhe = sg * (lo + (fr2 > ms) + ((fr2 == ms) & (lo % 2 == 1)))
-  ex = (m > 0) & (ms % N == 0)
+  ex = (m > 0) & ((ms % N == 0) if exact else False)
+  if not window:                      # (self-tests only) plain round-half-even everywhere
+    ex = m > 0
   mn = np.where(ex, rhe, mn)
   amb = np.where(ex, 0, amb)
   return mn, amb
@@ -110,7 +112,8 @@ def judge(res, dt, k, e, lo, amb, out, *, ed=False, dvals=None, tag=""):
   viol = res["viol"]
 
   def add(key, clause, detail):
-    if len(viol) < 40:
+    # at most 3 reports per key: the known-finding classes must never crowd out another key
+    if sum(1 for v in viol if v["key"] == key) < 3:
       viol.append({"key": key, "clause": clause, "detail": detail, "tag": tag})
 
   if q.shape != k.shape or f.shape != k.shape or q2.shape != k.shape or b.shape != (C,):
@@ -148,21 +151,23 @@ def judge(res, dt, k, e, lo, amb, out, *, ed=False, dvals=None, tag=""):
   if ed:   # the diagonal is judged separately (exactly)
     over = over & ~np.eye(R, C, dtype=bool)
   if over.any():
-    for (r, c) in np.argwhere(over)[:40]:
-      det = {"k": int(k[r, c]), "m": int(m[c]), "e": int(e[c]), "q": int(q[r, c]), "f": float(f64[r, c]),
-             "x": float(x64[r, c]), "err_in_buckets": float(err[r, c] / (mx64[0, c] / N)) if np.isfinite(err[r, c]) else "inf"}
-      if not finite[r, c] and is_maxfloat[0, c]:
-        add("quant|max_float|dequant_overflow|" + dt, "dequantised_not_finite", det)
-      elif under[c]:
-        add("quant|bucket_underflow|" + dt, "half_bucket_exceeded", det)
-      elif subn_entry[r, c]:
-        add("quant|subnormal_entry_flushed|" + dt, "half_bucket_exceeded", det)
-      elif not finite[r, c]:
-        add(f"quant|{dt}|dequantised_not_finite", "dequantised_not_finite", det)
-      else:
-        add(f"quant|{dt}|half_bucket_exceeded", "half_bucket_exceeded", det)
-      if len({v["key"] for v in viol}) >= 4:
-        break
+    U = np.broadcast_to(under[None, :], over.shape)
+    MF = np.broadcast_to(is_maxfloat, over.shape)
+    c_mf = over & ~finite & MF
+    c_un = over & ~c_mf & U
+    c_sn = over & ~c_mf & ~U & subn_entry
+    c_nf = over & ~c_mf & ~U & ~subn_entry & ~finite
+    c_hb = over & ~c_mf & ~U & ~subn_entry & finite
+    for mask, key, clause in ((c_mf, "quant|max_float|dequant_overflow|" + dt, "dequantised_not_finite"),
+                              (c_un, "quant|bucket_underflow|" + dt, "half_bucket_exceeded"),
+                              (c_sn, "quant|subnormal_entry_flushed|" + dt, "half_bucket_exceeded"),
+                              (c_nf, f"quant|{dt}|dequantised_not_finite", "dequantised_not_finite"),
+                              (c_hb, f"quant|{dt}|half_bucket_exceeded", "half_bucket_exceeded")):
+      for (r, c) in np.argwhere(mask)[:2]:
+        add(key, clause,
+            {"k": int(k[r, c]), "m": int(m[c]), "e": int(e[c]), "q": int(q[r, c]), "f": float(f64[r, c]),
+             "x": float(x64[r, c]), "n_bad": int(mask.sum()),
+             "err_in_buckets": float(err[r, c] / (mx64[0, c] / N)) if np.isfinite(err[r, c]) else "inf"})
   # ---- no wrap (all classes) --------------------------------------------------------------
   wrap = (q < -N) | (q > N)
   if wrap.any():
